@@ -207,7 +207,7 @@ func stampCase(run *ev.Run, w *stampWorld, g *sip.Gen, i int, prop string, stamp
 	if sv.HasDef {
 		to = "<tel:+15550123>"
 	}
-	method := []string{"OPTIONS", "MESSAGE", "INVITE", "INFO"}[g.R.Intn(4)]
+	method := []string{"OPTIONS", "MESSAGE", "INVITE", "INFO", "ACK", "BYE", "CANCEL", "PRACK", "UPDATE", "REGISTER", "SUBSCRIBE", "NOTIFY", "REFER", "PUBLISH", g.Method()}[g.R.Intn(15)]
 	m := &sip.Msg{Start: method + " " + ruri + " SIP/2.0"}
 	vname := []string{"Via", "v", "VIA"}[g.R.Intn(3)]
 	for _, v := range values {
@@ -228,7 +228,12 @@ func stampCase(run *ev.Run, w *stampWorld, g *sip.Gen, i int, prop string, stamp
 		run.Inconclusive(1)
 		return false
 	}
-	cell := fmt.Sprintf("%s|norecv=%v|rport=%s|received=%s", ingress, sv.NoRecv, rportShape, recvShape)
+	mclass := "other"
+	switch method {
+	case "ACK", "INVITE", "BYE", "CANCEL":
+		mclass = method
+	}
+	cell := fmt.Sprintf("%s|norecv=%v|rport=%s|received=%s|%s", ingress, sv.NoRecv, rportShape, recvShape, mclass)
 	detail := func(why string, extra map[string]any) map[string]any {
 		d := map[string]any{"why": why, "cell": cell, "service": sidx, "true_source": fmt.Sprintf("%s:%d", trueIP, truePort), "request": string(m.Bytes())}
 		for k, v := range extra {
